@@ -112,6 +112,12 @@ R01.7 the destination import path comes from modfile.ModulePath of the nearest g
 	// qualifier bookkeeping: distinct imports never share a qualifier (shared with C15)
 	ruleAddImport(c, r, "R01.5")
 	accessorTableGuard(c, "R01.9")
+	// identifiers produced through template functions: exported/firstUpper/firstIsLower work on runes
+	// (a byte-wise version turns a non-ASCII first letter into invalid UTF-8, i.e. an invalid identifier)
+	c.Rule("R01.10", 1, "")
+	subRules(c, "R01.10", "identifier-functions", "the built-in templates build field and constructor names with these functions: ", func(sub *Ctx) {
+		ruleRunes(sub, loadRepo(sub, packages.LoadSyntax, "", "./template_funcs"))
+	})
 }
 
 // captureHazards implements R01.3 on one skeleton; returns the number of functions analysed.
@@ -909,4 +915,60 @@ func init() {
 			}
 		}
 	})
+}
+
+// ruleFormattersKeepComments: whatever the formatter, the header (generated-code marker, boilerplate,
+// build constraint) survives formatting: gofmt is go/format.Source (which keeps comments) applied to
+// the rendered bytes, and goimports is imports.Process with no options or with Comments: true;
+// format's noop arm returns the bytes unchanged (R01.6).
+func ruleFormattersKeepComments(c *Ctx, r *Repo, rule string) {
+	ip := r.Pkg("internal")
+	info := ip.TypesInfo
+	for _, name := range []string{"gofmt", "goimports"} {
+		h := FuncDecl(ip, name)
+		if h == nil {
+			c.Fail(rule, "formatter|"+name+"|missing", "internal/template_generator.go", name+" not found")
+			continue
+		}
+		arg := info.Defs[h.Type.Params.List[0].Names[0]]
+		good, why := false, name+" does not hand the rendered bytes to its library formatter"
+		nCalls := 0
+		ast.Inspect(h.Body, func(n ast.Node) bool {
+			call, ok := n.(*ast.CallExpr)
+			if !ok {
+				return true
+			}
+			switch calleeName(info, call) {
+			case "go/format.Source":
+				nCalls++
+				good = len(call.Args) == 1 && isObj(info, call.Args[0], arg)
+			case "golang.org/x/tools/imports.Process":
+				nCalls++
+				if len(call.Args) != 3 || !isObj(info, call.Args[1], arg) {
+					return true
+				}
+				switch o := ast.Unparen(call.Args[2]).(type) {
+				case *ast.Ident:
+					good = isNilIdent(info, o)
+				case *ast.UnaryExpr:
+					if cl, ok := o.X.(*ast.CompositeLit); ok {
+						for _, el := range cl.Elts {
+							if kv, ok := el.(*ast.KeyValueExpr); ok {
+								if k, ok := kv.Key.(*ast.Ident); ok && k.Name == "Comments" {
+									if tv := info.Types[kv.Value]; tv.Value != nil && tv.Value.String() == "true" {
+										good = true
+									}
+								}
+							}
+						}
+						if !good {
+							why = name + " calls imports.Process with options that do not set Comments: true, so every comment is dropped from the output: the generated-code marker, the boilerplate and the //go:build line disappear"
+						}
+					}
+				}
+			}
+			return true
+		})
+		c.Check(good && nCalls == 1, rule, "formatter|"+name+"|keeps-comments", r.Pos(h.Pos()), name+" formats the rendered bytes with comments kept", why)
+	}
 }
